@@ -189,6 +189,43 @@ func checkpointOne(c *ctx, b rep.Behaviour, st *ckpStats) bool {
 				}
 				ds = append(ds, d)
 			}
+			// One mechanism, one key: a producer cancelled while Pending is ONE object held by
+			// PendingCanceledProducers and by another producer map (CanceledProducers; IllegalProducers
+			// ... after later status changes); the check point stores two copies, so what changes
+			// after a restore reaches only the copy in the other map.  A difference in
+			// PendingCanceledProducers[k].<field> belongs to it when the other map's entry of the
+			// restored instance agrees with the uninterrupted run (where both names show one value).
+			var aliasFields []string
+			var aliasFirst *diffEntry
+			keep := ds[:0:0]
+			for i := range ds {
+				d := ds[i]
+				if f, is := pendingCanceledAlias(d, rd, fullDump); is {
+					if aliasFirst == nil {
+						aliasFirst = &ds[i]
+					}
+					dup := false
+					for _, x := range aliasFields {
+						dup = dup || x == f
+					}
+					if !dup {
+						aliasFields = append(aliasFields, f)
+					}
+					continue
+				}
+				keep = append(keep, d)
+			}
+			ds = keep
+			if aliasFirst != nil {
+				ok = false
+				if !reported["div:alias"] {
+					reported["div:alias"] = true
+					rep.Violation("C23:dpos-restore-diverges:PendingCanceledProducers-alias", fmt.Sprintf("restored from the check point of height %d and continued to %d: "+
+						"the PendingCanceledProducers copy of a producer stays behind the copy in the other producer map in the field(s) %s "+
+						"(e.g. %s is %q, the uninterrupted run has %q there and under both names)", bb.height, len(chain),
+						strings.Join(aliasFields, ", "), aliasFirst.Path, aliasFirst.A, aliasFirst.B), caseInfo())
+				}
+			}
 			seen := map[string]bool{}
 			for _, d := range ds {
 				cl := fieldClass(d.Path)
@@ -206,6 +243,42 @@ func checkpointOne(c *ctx, b rep.Behaviour, st *ckpStats) bool {
 		r.free()
 	}
 	return ok
+}
+
+// lookup finds a path in a (sorted) dump.
+func (d *dump) lookup(path string) (string, bool) {
+	d.sort()
+	i := sort.Search(len(d.e), func(i int) bool { return d.e[i].k >= path })
+	if i < len(d.e) && d.e[i].k == path {
+		return d.e[i].v, true
+	}
+	return "", false
+}
+
+// pendingCanceledAlias: is the difference d (restored vs. uninterrupted) in PendingCanceledProducers[k].<field>
+// while another producer map of the restored instance holds k with the uninterrupted run's value of that field?
+func pendingCanceledAlias(d diffEntry, restored, full *dump) (string, bool) {
+	const pre = "KeyFrame.PendingCanceledProducers["
+	if !strings.HasPrefix(d.Path, pre) {
+		return "", false
+	}
+	rest := d.Path[len(pre):] // k].field
+	j := strings.Index(rest, "].")
+	if j < 0 {
+		return "", false
+	}
+	for _, m := range producerMaps {
+		if m == "PendingCanceledProducers" {
+			continue
+		}
+		other := "KeyFrame." + m + "[" + rest
+		vR, okR := restored.lookup(other)
+		vF, okF := full.lookup(other)
+		if okR && okF && vR == vF && vF == d.B {
+			return rest[j+2:], true
+		}
+	}
+	return "", false
 }
 
 func checkpointMode(path string, span int) {
